@@ -58,7 +58,7 @@ def run(pid, cfg, failed, findings, repo, scratch):
         import replay_arith
         binary = replay_arith.build_binary(repo, log)
         fnc = replay_arith.replay_float if fam == "arith_float" else replay_arith.replay_cmp
-        for fn in sorted(set(_fn_of(ob) for ob in by_ob) | set(ob.split("::")[-1] for ob in by_ob)):
+        for fn in sorted(set((ob.split("::")[-1] if _fn_of(ob) == "lemma" else _fn_of(ob)) for ob in by_ob)):
             fails_by_fn[fn] = fnc(repo, [fn], scratch, log, binary=binary) if binary else None
     elif fam in ("heap", "charreader"):
         import replay_rust
